@@ -76,5 +76,5 @@ func (e *ElectreIIIBiasLIstener) Spec_RankCriteriaAscending(params *model.Decisi
 	for k, v := range *eleParams.Criteria {
 		weights[k] = v.K
 	}
-	return params.Criteria.SortByWeights(weights)
+	return params.Criteria.Spec_SortByWeights(weights)
 }
